@@ -51,9 +51,9 @@ Local Opaque fb_of_int32 fb_of_int64 canon32 canon64 fb_trunc32 fb_trunc64
 
 (* int -> float: the nearest float (Floats.of_int32/64) of the source VALUE,
    whenever the integer is not wider than the float (class 2 excluded) *)
-Theorem int_to_float_except_known from to a s w :
+Theorem int_to_float_except_known fx from to a s w :
   ty_sem from = Some (s, w) -> in_bits w a -> known_class_any from to = None ->
-  forall r, spec_int_to_float from to a = Some r -> val_bits (m_cast from to a) = Some r.
+  forall r, spec_int_to_float from to a = Some r -> val_bits (m_cast_v fx from to a) = Some r.
 Proof.
   intros Hf Ha K r S.
   pose proof (ty_sem_in_all _ _ _ Hf) as I.
@@ -69,9 +69,9 @@ Qed.
 
 (* float -> int: truncation toward zero whenever the truncated value fits the target,
    provided the target is not wider than the float (class 3 excluded) *)
-Theorem float_to_int_except_known from to x :
+Theorem float_to_int_except_known fx from to x :
   known_class_any from to = None ->
-  forall r, spec_float_to_int from to x = Some r -> val_bits (m_cast from to x) = Some r.
+  forall r, spec_float_to_int from to x = Some r -> val_bits (m_cast_v fx from to x) = Some r.
 Proof.
   intros K r S. unfold spec_float_to_int in S.
   destruct (float_width from) as [wf|] eqn:FW; [|discriminate].
@@ -110,7 +110,7 @@ Lemma cast_float_to_int_witness :
 Proof. split; vm_compute; reflexivity. Qed.
 
 (* the strongest true statement about all casts that involve a float *)
-Theorem cast_float_except_known from to a :
+Theorem cast_float_except_known fx from to a :
   known_class_any from to = None ->
   (forall s w, ty_sem from = Some (s, w) -> in_bits w a) ->
   (ty_sem from = None \/ ty_sem to = None) ->
@@ -120,7 +120,7 @@ Theorem cast_float_except_known from to a :
             | None, Some _ => spec_float_to_int from to a
             | _, _ => None
             end = Some r ->
-  val_bits (m_cast from to a) = Some r.
+  val_bits (m_cast_v fx from to a) = Some r.
 Proof.
   intros K Ha _ _ r. destruct (ty_sem from) as [[s w]|] eqn:Hf; destruct (ty_sem to) as [[s2 w2]|] eqn:Ht;
     try discriminate.
